@@ -28,12 +28,14 @@ type c13Case struct {
 	coreCase
 	Repeats  int    `json:"repeats"`
 	DelaySeed uint64 `json:"delay_seed"` // seeds per-call delays in the fake services (perturbed scheduling)
+	FaultSvc  int    `json:"fault_svc,omitempty"` // 1+i: service i answers every follow-up lookup batch with one error per request (message names the looked-up id)
 }
 
 type c13Obs struct {
 	Data   string   `json:"data"`
 	Errors []string `json:"errors"`
 	Calls  []string `json:"calls"`
+	raw    interface{}
 }
 
 func (o c13Obs) key() string { return o.Data + "\n" + strings.Join(o.Errors, "|") + "\n" + strings.Join(o.Calls, "\n") }
@@ -71,6 +73,15 @@ func c13Check(ctx *Ctx, idx int, cs c13Case) {
 			return time.Duration(dr.Intn(400)) * time.Microsecond
 		}
 	}
+	if cs.FaultSvc > 0 && cs.FaultSvc-1 < len(cf.F.Services) {
+		ctx.Rep.Count("downstream failures injected in follow-up lookups")
+		cf.F.Services[cs.FaultSvc-1].Fault = func(c *fed.Call) *fed.FaultAction {
+			if !strings.Contains(c.Query, "node(id: $id)") {
+				return nil
+			}
+			return &fed.FaultAction{Kind: "errors", Data: []interface{}{map[string]interface{}{"message": "injected failure for " + fmt.Sprint(c.Variables["id"])}}}
+		}
+	}
 	var first *c13Obs
 	runs := 0
 	for g := 0; g < 2; g++ { // two independently built gateways
@@ -82,7 +93,7 @@ func c13Check(ctx *Ctx, idx int, cs c13Case) {
 		for k := 0; k < cs.Repeats; k++ {
 			cf.F.ResetLogs()
 			resp := fed.Do(gw, cs.Query, cs.Vars, cs.OpName)
-			o := c13Obs{Data: hx.Canon(toGeneric(resp.Data)), Errors: errMsgs(resp.Errors)}
+			o := c13Obs{Data: hx.Canon(toGeneric(resp.Data)), Errors: errMsgs(resp.Errors), raw: toGeneric(resp.Data)}
 			for _, c := range cf.F.AllCalls() {
 				o.Calls = append(o.Calls, subRequestKey(cf.F.Services[c.Service].URL, c.Query, c.Variables))
 			}
@@ -94,6 +105,9 @@ func c13Check(ctx *Ctx, idx int, cs c13Case) {
 			}
 			if o.key() != first.key() {
 				what := "data"
+				if o.Data != first.Data && hx.Canon(stripIDs(o.raw)) != hx.Canon(stripIDs(first.raw)) {
+					what = "data, beyond the presence of a helper id"
+				}
 				if o.Data == first.Data {
 					what = "the set of errors"
 					if strings.Join(o.Errors, "|") == strings.Join(first.Errors, "|") {
@@ -158,6 +172,28 @@ func c13Class(cf *coreFed, cs c13Case, what string) string {
 	return ""
 }
 
+// stripIDs removes every `id` member: the open finding is about the helper id only, so two runs
+// that still differ after this differ in something else.
+func stripIDs(v interface{}) interface{} {
+	switch x := v.(type) {
+	case map[string]interface{}:
+		out := map[string]interface{}{}
+		for k, e := range x {
+			if k != "id" {
+				out[k] = stripIDs(e)
+			}
+		}
+		return out
+	case []interface{}:
+		out := make([]interface{}, len(x))
+		for i, e := range x {
+			out[i] = stripIDs(e)
+		}
+		return out
+	}
+	return v
+}
+
 func c13ClassPin(cf *coreFed, cs c13Case, what string) string {
 	c := c13Class(cf, cs, what)
 	if c != "" {
@@ -173,8 +209,57 @@ func min(a, b int) int {
 	return b
 }
 
+// genC13NodeRoots: directed stream — one operation with 2..4 aliased node(id:) root fields whose
+// fragments select plain leaf fields (possibly owned by different services) or only `id`.
+func genC13NodeRoots(r *hx.Rand) (coreCase, bool) {
+	seed := r.U64() % 1000000
+	cf, err := buildCoreFed(seed, false, false)
+	if err != nil {
+		return coreCase{}, false
+	}
+	ids := cf.F.Data.AllEntityIDs()
+	if len(ids) == 0 {
+		return coreCase{}, false
+	}
+	var parts []string
+	for k, n := 0, r.Range(2, 4); k < n; k++ {
+		id := hx.Pick(r, ids)
+		ent := cf.F.Data.Entities[id]
+		def := cf.Merged.Schema.Types[ent.Type]
+		if def == nil {
+			return coreCase{}, false
+		}
+		var leaves []string
+		for _, fd := range def.Fields {
+			t := cf.Merged.Schema.Types[fd.Type.Name()]
+			req := false
+			for _, a := range fd.Arguments {
+				req = req || a.Type.NonNull
+			}
+			if fd.Name != "id" && !strings.HasPrefix(fd.Name, "__") && !req && (t == nil || !t.IsCompositeType()) {
+				leaves = append(leaves, fd.Name)
+			}
+		}
+		sel := "id"
+		if len(leaves) > 0 && !r.Chance(1, 3) {
+			var pick []string
+			for _, j := range r.Perm(len(leaves)) {
+				if len(pick) < 3 {
+					pick = append(pick, leaves[j])
+				}
+			}
+			sel = strings.Join(pick, " ")
+			if r.Chance(1, 3) {
+				sel = "id " + sel
+			}
+		}
+		parts = append(parts, fmt.Sprintf("r%d: node(id: %q) { ... on %s { %s } }", k, id, def.Name, sel))
+	}
+	return coreCase{FedSeed: seed, Query: "{ " + strings.Join(parts, " ") + " }", Kind: "query", Features: []string{"node-root", "directed:several-node-roots"}}, true
+}
+
 func runC13(ctx *Ctx) error {
-	ctx.Rep.Rule = "case = (generated federation incl. interfaces/unions, valid operation from the WILD generator profile, delay seed) sent k times to each of two independently built real gateways under seeded per-call delays; " +
+	ctx.Rep.Rule = "case = (generated federation incl. interfaces/unions, valid operation from the WILD generator profile, delay seed) sent k times to each of two independently built real gateways under seeded per-call delays, one case in four with every follow-up lookup of one service failing; " +
 		"oracle: identical canonical data, identical error set, identical multiset of sub-requests in every run; distinct = distinct case; non-trivial = ≥2 services"
 	cases, repeats := 150, 4
 	if ctx.Thorough() {
@@ -197,6 +282,9 @@ func runC13(ctx *Ctx) error {
 		if r.Chance(2, 3) {
 			cs.DelaySeed = r.U64()%1000 + 1
 		}
+		if r.Chance(1, 4) {
+			cs.FaultSvc = 1 + r.Intn(3) // failures: the SET of reported errors must not depend on timing either
+		}
 		c13Check(ctx, 100+k, cs)
 	}
 	// node(id:) roots: known to depend on map order (open finding); anything else must not
@@ -208,6 +296,15 @@ func runC13(ctx *Ctx) error {
 		}
 		ctx.Rep.Count("stream:node-root")
 		c13Check(ctx, 500000+k, c13Case{coreCase: cc, Repeats: repeats * 2})
+	}
+	for k := 0; k < cases/5; k++ {
+		r := ctx.Rand.Fork()
+		cc, ok := genC13NodeRoots(r)
+		if !ok {
+			continue
+		}
+		ctx.Rep.Count("stream:several-node-roots")
+		c13Check(ctx, 600000+k, c13Case{coreCase: cc, Repeats: repeats * 4, DelaySeed: r.U64()%1000 + 1})
 	}
 	return nil
 }
